@@ -258,6 +258,25 @@ static int parse_text(struct aws_date_time *dt, const uint8_t *block, size_t n, 
     } else {
         struct aws_byte_buf b = aws_byte_buf_from_array(block, n);
         rc = aws_date_time_init_from_str(dt, &b, f);
+        int e1 = rc == AWS_OP_SUCCESS ? 0 : aws_last_error();
+        /* the same text at the front of a buffer with spare capacity (the usual 100-byte output array): only [0,len) is the
+         * text, whatever the bytes behind it look like (added after a seeded change that parsed up to capacity) */
+        static const char tail[8] = {'9', ' ', 'G', 'M', 'T', '+', '0', '1'};
+        uint8_t roomy[160];
+        if (n + sizeof(tail) <= sizeof(roomy)) {
+            memcpy(roomy, block, n);
+            memcpy(roomy + n, tail, sizeof(tail));
+            struct aws_byte_buf b2 = aws_byte_buf_from_array(roomy, n);
+            b2.capacity = n + sizeof(tail);
+            struct aws_date_time d2;
+            memset(&d2, 0xA5, sizeof(d2));
+            int rc2 = aws_date_time_init_from_str(&d2, &b2, f);
+            if (rc2 != rc || (rc == AWS_OP_SUCCESS && (d2.timestamp != dt->timestamp || d2.milliseconds != dt->milliseconds)))
+                c19_fail("buf-spare-capacity-changes-result", "init_from_str of \"%s\" (%s): rc=%d t=%" PRId64 " from an exact buffer, rc=%d t=%" PRId64 " when the buffer has %zu more bytes of capacity behind len",
+                         v_show(block, n), fmt_name(f), rc, rc == AWS_OP_SUCCESS ? (int64_t)dt->timestamp : 0, rc2, rc2 == AWS_OP_SUCCESS ? (int64_t)d2.timestamp : 0, sizeof(tail));
+        }
+        *err = e1;
+        return rc;
     }
     *err = rc == AWS_OP_SUCCESS ? 0 : aws_last_error();
     return rc;
